@@ -613,7 +613,7 @@ def decide(leaves, bad, timeout_ms=60000):
     violated); all unsat = holds for every input within the bounds.  Returns ('unsat'|'sat'|'unknown', model, solver)."""
     last = None
     unknown = False
-    per_leaf = max(5000, timeout_ms // max(1, min(len(leaves), 8)))
+    per_leaf = timeout_ms          # wall-clock in z3: generous, the machine may be loaded
     for l in leaves:
         b = bad(l)
         if isinstance(b, bool):
